@@ -142,9 +142,10 @@ func TestMain(m *testing.M) {
 		}
 		os.Exit(code)
 	}
-	run.Rule("sequences over {probe-fail, probe-ok, partner-down (FailureThreshold fails), partner-up (RecoveryThreshold oks), +δ for δ∈{1ns, FailoverDelay−1ns, FailoverDelay, FailbackDelay−1ns, FailbackDelay, GracePeriod, 1s}, ForceFailover, ForceFailback, next-callback fail/ok} run against the real FailoverController+HealthMonitor on a virtual clock (testing/synctest): breadth-first enumeration with state fingerprinting (a sequence is extended only if it ends in a fingerprint not seen before), seeded random walks over random configurations, and concurrent rounds (several goroutines act at the same virtual instant, aligned with timer deadlines) under -race; after every step and at every instant derived from the configured delays the role/state/stats/events/callback log are judged; non-trivial = distinct (configuration, sequence) during which the controller left the normal state (a failover/failback timer was armed or an in-progress episode was observed)")
+	run.Rule("sequences over {probe-fail, probe-ok, partner-down (FailureThreshold fails), partner-up (RecoveryThreshold oks), +δ for δ∈{1ns, FailoverDelay−1ns, FailoverDelay, FailbackDelay−1ns, FailbackDelay, GracePeriod, 1s}, ForceFailover, ForceFailback, next-callback fail/ok} run against the real FailoverController+HealthMonitor on a virtual clock (testing/synctest): breadth-first enumeration with state fingerprinting (a sequence is extended only if it ends in a fingerprint not seen before), seeded random walks over random configurations, scripted cases (for 5 fixed + seeded random configurations, each of 11 timer windows {failover timer, promotion drain period, forced-promotion drain period, after a cancelled failover timer, after a failed promotion, failback timer (after an automatic and after a forced promotion, and re-armed after a relapse), failback drain period, after a failed failback, promoted with the partner still down} × offsets {start, +1ns, middle, end−1ns, end, end+1ns, seeded random inside} × operator command groups {none, ff, fb, repeated, mixed, 1ns apart, each with the next callback failing} and the same commands at two different points of one window) and concurrent rounds (several goroutines act at the same virtual instant, aligned with timer deadlines) under -race; every sequence ends with the partner's health unchanged and virtual time run past FailoverDelay+FailbackDelay+3·GracePeriod+2s (quiescence); after every step and at every instant derived from the configured delays the role/state/stats/events/callback log are judged; non-trivial = distinct (configuration, sequence) during which the controller left the normal state (a failover/failback timer was armed or an in-progress episode was observed)")
 	run.Assume("partner 'down'/'up' is defined from the injected probe results by the documented thresholds (FailureThreshold consecutive failures while healthy => down; RecoveryThreshold consecutive successes while unhealthy => up), initial state healthy")
 	run.Assume("an automatic promotion at τ is accepted iff some down interval [d,e) has d+FailoverDelay ≤ τ, d+FailoverDelay ≤ e and e ≥ τ−GracePeriod (a recovery that arrives after the delay elapsed, during the drain period, is not required to cancel; counted as an observation); a ForceFailover that returned nil justifies the next promotion (DESIGN §5b)")
+	run.Assume("'no transition pending' is bounded as: State()=in_progress for more than GracePeriod+ε, State()=pending for more than FailoverDelay+ε, or State()=failback_pending for more than FailbackDelay+GracePeriod+ε of virtual time, each counted from the later of the first observation of the state and the last input (probe or operator command); at quiescence the state must be normal or complete. Which of the two, and whether a failback took place, is not prescribed beyond the other clauses (a failback is never required by the statement): end states are counted as observations")
 	run.Assume("role-change callbacks return immediately (zero virtual time); events emitted and role changes are observed after synctest.Wait, i.e. when every goroutine of the controller is durably blocked")
 	run.Assume("BFS and random walks (strictly sequential drivers) run in a child process built from the same package and /repo tree without -race; concurrent rounds and a slice of the random walks run under -race in the parent")
 	run.Floor("promotions_observed", 50)
@@ -152,6 +153,18 @@ func TestMain(m *testing.M) {
 	run.Floor("pending_cancelled_by_recovery", 20)
 	run.Floor("callback_failures_observed", 10)
 	run.Floor("concurrent_rounds", 2000)
+	// operator commands inside timer windows, and the transitional episodes they fell into, were really reached
+	run.Floor("scripted_sequences", 5000)
+	run.Floor("scripted_commands_issued_outside_normal_state", 3000)
+	run.Floor("cmd_force_failback_in_state_failback_pending", 1000)
+	run.Floor("cmd_force_failover_in_state_failback_pending", 1000)
+	run.Floor("cmd_force_failover_in_state_pending", 200)
+	run.Floor("cmd_force_failback_in_state_pending", 200)
+	run.Floor("cmd_force_failover_in_state_in_progress", 500)
+	run.Floor("cmd_force_failback_in_state_in_progress", 500)
+	run.Floor("episodes_failback_pending_resolved_after_operator_command_inside", 1000)
+	run.Floor("episodes_pending_resolved_after_operator_command_inside", 200)
+	run.Floor("quiescent_ends_judged", 50000)
 	wait := startChild()
 	code := m.Run()
 	child, err := wait()
@@ -200,6 +213,9 @@ type op struct {
 func (o op) String() string {
 	if o.K == "adv" {
 		return "+" + o.D.String()
+	}
+	if o.K == "mark" {
+		return "|"
 	}
 	return o.K
 }
@@ -313,12 +329,26 @@ type world struct {
 	statesSeen   map[string]bool
 	transSeen    map[string]bool
 	stuckFlagged bool
+
+	// transitional states other than in_progress (pending, failback_pending): same clause, own window
+	pendState   ha.FailoverState
+	pendSince   time.Duration // first observation of the current episode, or the last input since (whichever is later)
+	pendBegan   time.Duration
+	pendStartOp int // index of the input during which the episode began
+	pendFlagged bool
+	opIdx       int // inputs applied so far (a concurrent round counts as one)
+	lastFBOp    int // opIdx of the last ForceFailback that returned nil
+	lastFFOp    int // opIdx of the last ForceFailover attempt (accepted or not)
+	lastFBTryOp int // opIdx of the last ForceFailback attempt (accepted or not)
+	concurrent  bool
+	markKey     string // scripted cases: state/role where the operator commands begin
+	endKey      string // state/role/health at quiescence
 }
 
 func (w *world) now() time.Duration { return time.Since(w.t0) }
 
 func newWorld(c cfgT) *world {
-	w := &world{c: c, healthy: true, role: ha.RoleStandby, state: ha.FailoverStateNormal, inProgSince: -1, lastFF: -1,
+	w := &world{c: c, healthy: true, role: ha.RoleStandby, state: ha.FailoverStateNormal, inProgSince: -1, lastFF: -1, pendSince: -1, lastFBOp: -1, lastFFOp: -1, lastFBTryOp: -1,
 		obs: map[string]int{}, statesSeen: map[string]bool{}, transSeen: map[string]bool{}}
 	w.t0 = time.Now()
 	logger := zap.NewNop()
@@ -448,6 +478,7 @@ func justified(ivs []ival, lo, hi time.Duration, c cfgT) bool {
 // apply executes one non-time operation at the current instant (no settle, no observe).
 func (w *world) apply(o op) {
 	w.lastOp = o.K
+	w.opIdx++
 	switch o.K {
 	case "fail":
 		w.probe(true)
@@ -462,6 +493,8 @@ func (w *world) apply(o op) {
 			w.probe(false)
 		}
 	case "ff":
+		w.obs["cmd_force_failover_in_state_"+w.fc.State().String()]++
+		w.lastFFOp = w.opIdx
 		err := w.fc.ForceFailover("operator")
 		w.obs["force_failover"]++
 		if err == nil {
@@ -470,10 +503,13 @@ func (w *world) apply(o op) {
 			w.obs["force_failover_accepted"]++
 		}
 	case "fb":
+		w.obs["cmd_force_failback_in_state_"+w.fc.State().String()]++
+		w.lastFBTryOp = w.opIdx
 		err := w.fc.ForceFailback("operator")
 		w.obs["force_failback"]++
 		if err == nil {
 			w.fbCredit++
+			w.lastFBOp = w.opIdx
 			w.obs["force_failback_accepted"]++
 		}
 	case "cbfail":
@@ -491,10 +527,18 @@ func (w *world) apply(o op) {
 		// "with no new input": every input restarts the window
 		w.inProgSince = w.now()
 	}
+	if w.pendSince >= 0 && o.K != "cbfail" && o.K != "cbok" {
+		w.pendSince = w.now()
+	}
 }
 
 // step = apply + settle + observe, for sequential sequences.
 func (w *world) step(o op) {
+	if o.K == "mark" {
+		// scripted cases: not an input; notes what the controller reports where the commands begin
+		w.markKey = fmt.Sprintf("%s/%s", w.fc.State(), w.fc.CurrentRole())
+		return
+	}
 	w.opsDone = append(w.opsDone, o.String())
 	if o.K == "adv" {
 		w.advance(o.D)
@@ -539,6 +583,9 @@ func (w *world) instants(now, target time.Duration) []time.Duration {
 	}
 	if w.inProgSince >= 0 {
 		add(w.inProgSince + w.c.GP + eps + 1)
+	}
+	if w.pendSince >= 0 {
+		add(w.pendSince + w.pendBound(w.pendState) + 1)
 	}
 	sort.Slice(cand, func(i, j int) bool { return cand[i] < cand[j] })
 	var out []time.Duration
@@ -726,6 +773,52 @@ func (w *world) observe(what string) {
 		w.stuckFlagged = false
 	}
 
+	// --- same clause for the other transitional states: "pending" means a failover timer is running,
+	// "failback_pending" that a failback timer or the failback's drain period is running. With no input
+	// the transition they announce is due within FailoverDelay resp. FailbackDelay+GracePeriod; a
+	// controller that still reports the state after that (+ε) has no transition pending.
+	if state == ha.FailoverStatePending || state == ha.FailoverStateFailbackPending {
+		if w.pendSince < 0 || w.pendState != state {
+			w.pendState, w.pendSince, w.pendBegan, w.pendStartOp, w.pendFlagged = state, now, w.lastObs, w.opIdx, false
+			w.obs["episodes_"+state.String()]++
+		}
+		w.obs[state.String()+"_observations"]++
+		if bound := w.pendBound(state); now-w.pendSince > bound && !w.pendFlagged {
+			w.pendFlagged = true
+			w.obs["stuck_"+state.String()+"_episodes"]++
+			after := func(op int) bool { return op > w.pendStartOp || (w.concurrent && op == w.pendStartOp) }
+			var comp, class, what string
+			if state == ha.FailoverStatePending {
+				comp, class, what = compCtl+".handleHealthEvent", "pending-without-operator-command", fmt.Sprintf("FailoverDelay %v", w.c.FD)
+				if after(w.lastFFOp) || after(w.lastFBTryOp) {
+					comp, class = compCtl+".ForceFailover", "pending-after-operator-command"
+					if !after(w.lastFFOp) {
+						comp = compCtl + ".ForceFailback"
+					}
+				}
+			} else {
+				comp, class, what = compCtl+".executeFailback", "failback-pending-without-operator-command", fmt.Sprintf("FailbackDelay %v + GracePeriod %v", w.c.FBD, w.c.GP)
+				switch {
+				case after(w.lastFBOp):
+					comp, class = compCtl+".ForceFailback", "failback-pending-after-accepted-force-failback"
+				case after(w.lastFFOp):
+					comp, class = compCtl+".ForceFailover", "failback-pending-after-force-failover-attempt"
+				}
+			}
+			w.violation(comp, ruleStuck, class,
+				fmt.Sprintf("State()=%s continuously from t=%v to t=%v (> %s + ε) with no input in between, role %s, partner healthy=%v by the thresholds: no transition is pending (the timer this state announces never fired or was stopped)", state, w.pendSince, now, what, role, w.healthy))
+		}
+	} else {
+		if w.pendSince >= 0 {
+			w.obs["episodes_"+w.pendState.String()+"_resolved"]++
+			if w.lastFBOp > w.pendStartOp || w.lastFFOp > w.pendStartOp || w.lastFBTryOp > w.pendStartOp {
+				w.obs["episodes_"+w.pendState.String()+"_resolved_after_operator_command_inside"]++
+			}
+		}
+		w.pendSince = -1
+		w.pendFlagged = false
+	}
+
 	if state != ha.FailoverStateNormal {
 		w.leftNormal = true
 	}
@@ -739,6 +832,14 @@ func (w *world) observe(what string) {
 	}
 	w.state = state
 	w.lastObs = now
+}
+
+// pendBound: how long a transitional state may last with no input before the transition it announces is overdue.
+func (w *world) pendBound(s ha.FailoverState) time.Duration {
+	if s == ha.FailoverStateFailbackPending {
+		return w.c.FBD + w.c.GP + eps
+	}
+	return w.c.FD + eps
 }
 
 // stuckStat reports a stats discrepancy once per world.
@@ -856,6 +957,20 @@ func (w *world) drain() {
 	w.opsDone = append(w.opsDone, "[drain]")
 	w.advance(w.c.GP + 2*eps)
 	w.advance(w.c.FD + w.c.FBD + 2*w.c.GP + 2*time.Second)
+	// quiescence: virtual time has run past every configured delay with no input and the partner's
+	// health unchanged; whatever was pending had to happen by now
+	state, role := w.fc.State(), w.fc.CurrentRole()
+	w.obs["quiescent_ends_judged"]++
+	w.endKey = fmt.Sprintf("%s/%s/partner_healthy=%v", state, role, w.healthy)
+	w.obs["quiescent_end_"+w.endKey]++
+	if state != ha.FailoverStateNormal && state != ha.FailoverStateComplete && !w.pendFlagged && !w.stuckFlagged {
+		w.violation(compCtl, ruleStuck, "transitional-state-at-quiescence",
+			fmt.Sprintf("State()=%s at t=%v, after FailoverDelay+FailbackDelay+3·GracePeriod+2s of virtual time with no input: nothing is pending any more", state, w.now()))
+	}
+	if state == ha.FailoverStateComplete && role == ha.RoleActive && w.healthy && w.c.Failback {
+		// not part of the statement (failback is constrained by "only while healthy", never required)
+		w.obs["obs_quiescent_active_with_healthy_partner_and_failback_enabled"]++
+	}
 }
 
 type result struct {
@@ -865,6 +980,8 @@ type result struct {
 	fp         string
 	leftNormal bool
 	nViol      int
+	end        string
+	mark       string
 }
 
 func (w *world) flush(kind string) {
@@ -918,11 +1035,16 @@ func runSeq(t *testing.T, c cfgT, ops []op, kind string) result {
 			w.step(o)
 		}
 		res.fp = w.fingerprint()
+		p0, f0, c0 := w.promotions, w.failbacks, w.cbSeen
 		w.drain()
+		// an armed timer and a stopped one look the same until time passes: what the drain revealed
+		// (end state, role changes and callback invocations during it) is part of the fingerprint
+		res.fp += fmt.Sprintf("=>%s/p%d/f%d/c%d", w.endKey, w.promotions-p0, w.failbacks-f0, w.cbSeen-c0)
 		w.close()
 		res.leftNormal = w.leftNormal
 		res.nViol = w.nViol
 		res.promos, res.fbs = w.promotions, w.failbacks
+		res.end, res.mark = w.endKey, w.markKey
 		w.flush(kind)
 		res.finished = true
 	})
@@ -1153,6 +1275,7 @@ func runRounds(t *testing.T, c cfgT, seedIdx int) result {
 	rng := run.SubRand("rounds", seedIdx)
 	synctest.Test(t, func(t *testing.T) {
 		w := newWorld(c)
+		w.concurrent = true
 		synctest.Wait()
 		w.observe("start")
 		nRounds := 6 + rng.IntN(10)
@@ -1182,6 +1305,7 @@ func runRounds(t *testing.T, c cfgT, seedIdx int) result {
 				acts = append(acts, "read")
 			}
 			w.opsDone = append(w.opsDone, "{"+strings.Join(acts, ",")+"}@+1ns")
+			w.opIdx++
 			doneCh := make(chan struct{}, len(acts))
 			var mu sync.Mutex // protects the model fields touched by apply()
 			for _, a := range acts {
@@ -1207,6 +1331,9 @@ func runRounds(t *testing.T, c cfgT, seedIdx int) result {
 						if w.inProgSince >= 0 {
 							w.inProgSince = w.now()
 						}
+						if w.pendSince >= 0 {
+							w.pendSince = w.now()
+						}
 						mu.Unlock()
 						for i := 0; i < n; i++ {
 							if fail {
@@ -1227,14 +1354,23 @@ func runRounds(t *testing.T, c cfgT, seedIdx int) result {
 						if w.inProgSince >= 0 {
 							w.inProgSince = w.now()
 						}
+						if w.pendSince >= 0 {
+							w.pendSince = w.now()
+						}
+						w.lastFFOp = w.opIdx
 						mu.Unlock()
 					case "fb":
 						err := w.fc.ForceFailback("operator")
 						mu.Lock()
 						w.obs["force_failback"]++
+						w.lastFBTryOp = w.opIdx
 						if err == nil {
 							w.fbCredit++
+							w.lastFBOp = w.opIdx
 							w.obs["force_failback_accepted"]++
+						}
+						if w.pendSince >= 0 {
+							w.pendSince = w.now()
 						}
 						mu.Unlock()
 					case "read":
